@@ -980,6 +980,40 @@ impl Prop for C18 {
     }
 
     fn run(&self, case: &Case, st: &mut CaseStats, ctx: &Ctx) -> Result<(), Violation> {
+        // Reply points: every per-commitment point a reply carries (activation, revocation, the
+        // point requests, and the wire replies of the protocol handlers at versions 4/5/6) must be
+        // the channel's point for the number the reply is about.  A short commitment history on a
+        // fresh channel, execution level and length derived from the case.
+        {
+            use crate::props::holder::{machine_for, CSel, Case as HCase, Op as HOp};
+            let proto = [None, Some(4u8), Some(5u8), Some(6u8)][(case.chain % 4) as usize];
+            let k = 1 + ((case.chain / 4) % 3) as usize;
+            let mut ops = vec![];
+            for _ in 0..=k {
+                ops.push(HOp::Advance { c: CSel::Same, phase1: case.ldk });
+            }
+            ops.push(HOp::GetPoint { d: 0 });
+            ops.push(HOp::GetPoint { d: 1 });
+            ops.push(HOp::Revoke { d: -1 });
+            ops.push(HOp::Revoke { d: -2 });
+            let anchors = case.ids.first().map(|i| i.anchors).unwrap_or(false);
+            let hc = HCase { anchors, outbound: true, ops, proto };
+            let mut m = machine_for(&hc);
+            for (i, op) in hc.ops.iter().enumerate() {
+                if m.is_dead() {
+                    break;
+                }
+                let so = m.step(i, op);
+                st.class(format!("reply-points:{}:{}", so.kind, so.tag));
+                if let Some(msg) = so.point_mismatch {
+                    ctx.report(st, Violation::new(
+                        format!("C18:reply-point-differs-from-channel-point:{}", so.kind),
+                        format!("step {} {:?} of a commitment history ({}): {}", i, op, match proto { None => "API level".to_string(), Some(v) => format!("protocol version {}", v) }, msg),
+                    ))?;
+                    break;
+                }
+            }
+        }
         let seed = case.seed.resolve(None);
         let seed2 = case.seed2.resolve(Some(&seed));
         let net = NETS[(case.net as usize).min(NETS.len() - 1)];
